@@ -1,4 +1,5 @@
 import DM.Model.EncPrefix
+import DM.Lemmas.MainRT
 /-!
 # C16 — macro compaction and GS1 start: the decision logic
 
@@ -168,5 +169,38 @@ theorem no_trailer_verbatim (data : List Nat) (h : endsWith data TRAIL = false) 
 /-- Non-vacuity: the smallest enveloped message (empty body) and a bare header. -/
 example : macroPrefix (HEAD05 ++ TRAIL) true false = .ok [236] [] := by decide +kernel
 example : macroPrefix HEAD05 true false = .ok [] HEAD05 := by decide +kernel
+
+/-! ## Losslessness: the decoder re-creates what compaction removed
+
+For every message in the Macro 05 / 06 envelope, `use_macro_if_possible` writes the macro codeword
+and hands exactly the body to the encoder (`macro05_iff`, `macro06_of_envelope`); whatever the
+encoder model then returns for the body — under any plan covered by `MainRT.run_decRun` (no EDIFACT,
+no latch to a non-ASCII mode within the last four characters) — the decoder model turns back into the
+**whole original message**, header and trailer included. With FNC1 in first position the decoder
+returns the message itself (the GS1 flag is reported separately by `decode_parts`). -/
+
+open DM.Model.Enc DM.Lemmas.C40Gen in
+theorem macro05_lossless (list : List Sym) (body cw : List Nat) (plan : List (Nat × EMode)) (sym : Sym)
+    (hb : ∀ b ∈ body, b < 256) (hplan : ∀ e ∈ plan, (e.2 ≠ .ascii → e.1 = 0 ∨ e.1 > 4) ∧ e.2 ≠ .edifact)
+    (h : run list [236] body plan = .ok (cw, sym)) :
+    macroPrefix (HEAD05 ++ body ++ TRAIL) true false = .ok [236] body ∧
+    DM.Model.Dec.decodeData cw = .ok (HEAD05 ++ body ++ TRAIL) :=
+  ⟨(macro05_iff _ true false body).mpr ⟨rfl, rfl, rfl⟩,
+    DM.Lemmas.MainRT.macro_roundtrip false list body cw plan sym hb hplan h⟩
+
+open DM.Model.Enc DM.Lemmas.C40Gen in
+theorem macro06_lossless (list : List Sym) (body cw : List Nat) (plan : List (Nat × EMode)) (sym : Sym)
+    (hb : ∀ b ∈ body, b < 256) (hplan : ∀ e ∈ plan, (e.2 ≠ .ascii → e.1 = 0 ∨ e.1 > 4) ∧ e.2 ≠ .edifact)
+    (h : run list [237] body plan = .ok (cw, sym)) :
+    macroPrefix (HEAD06 ++ body ++ TRAIL) true false = .ok [237] body ∧
+    DM.Model.Dec.decodeData cw = .ok (HEAD06 ++ body ++ TRAIL) :=
+  ⟨macro06_of_envelope body, DM.Lemmas.MainRT.macro_roundtrip true list body cw plan sym hb hplan h⟩
+
+open DM.Model.Enc DM.Lemmas.C40Gen in
+theorem gs1_roundtrip (list : List Sym) (data cw : List Nat) (plan : List (Nat × EMode)) (sym : Sym) (m : Bool)
+    (hb : ∀ b ∈ data, b < 256) (hplan : ∀ e ∈ plan, (e.2 ≠ .ascii → e.1 = 0 ∨ e.1 > 4) ∧ e.2 ≠ .edifact)
+    (h : run list [232] data plan = .ok (cw, sym)) :
+    macroPrefix data m true = .ok [232] data ∧ DM.Model.Dec.decodeData cw = .ok data :=
+  ⟨fnc1_first data m, DM.Lemmas.MainRT.fnc1_roundtrip list data cw plan sym hb hplan h⟩
 
 end DM.Props.C16
